@@ -88,6 +88,13 @@ CHECKS["C18"] = ("seqx", "model_checking", "exhaustive DFS over histories of 1..
     "Every history over 2 (thorough 3) items with per-unit scripts {succeed, fail, fail-then-succeed, omit file, fail after writing}, between-run actions {none, delete/corrupt a cached output} x {same/changed kwargs} x {same/fresh destination}, foreign destination keys, single and per-conformer jobs is executed through the real jobmap (runner in-process; thorough re-runs a subset through the real subprocess runner); oracle = reference model of destination contents and per-unit execution counts read from marker files.",
     "n_workers=1; jobmap_sge (no qsub) not executed; where all commands exit 0 but the return file is missing both 0 and 1 re-executions are accepted (the code's own notion of success is ambiguous there).", "4 C18")
 
+CHECKS["C15"] = ("enumx", "model_checking", "exhaustive enumeration of all labelled simple graphs on 1..5 (thorough 6) atoms x every start atom, direction, bond and atom query, and of all targets x patterns for substructure matching, against own BFS / bridge finder / brute-force induced embeddings",
+    "Every labelled graph (1 099 quick, 33 867 thorough) is built as five real molli objects; yield_bfsd/yield_bfs from every atom (by object, index, label) and through every neighbour as direction, is_bond_in_ring for every bond, the adjacency queries for every atom, and match/get_substr_indices for every target x pattern (labelled targets <= 4 x all 120 labelled patterns <= 3 plus class representatives for 5 atoms in quick; the full labelled product <= 5 x <= 3 in thorough) are compared as sets with the harness's own graph algorithms (networkx is used by the code under test and is not the oracle).",
+    "Graphs up to 6 atoms, patterns up to 3 (4 by class representatives); bond-type compatibility is not part of the property.", "4 C15")
+CHECKS["C19"] = ("enumx", "model_checking", "exhaustive enumeration of shapes x dtypes x memory layouts x point-alphabet subsets for the distance kernels (shipped extension AND distance.cpp recompiled from the current tree against a pybind11 stand-in), and of box/padding/spacing and ensemble/grid/cut-off menus for the grid descriptors, against float64 numpy from the definition",
+    "All 12 kernel entry points are run over every shape n,m in 0..4 (thorough 0..6), x in 1..3, C/Fortran/sliced/transposed layouts, f4/f8/i8 and mixed dtypes on all pairs of point subsets; the same enumeration runs through ctypes on distance.cpp compiled unchanged from /repo at every run (guard zones detect out-of-bounds writes, a crash is a finding). rectangular_grid, nearest_atom_index, prune, aso, aeif and atomic_indicator_field are enumerated over corner/padding/spacing/dtype menus and 216 (648) small ensembles x 3 grids x cut-off/eps menus, weighted and unweighted.",
+    "pybind11 is not installed, so the shipped .so cannot be rebuilt: overload dispatch/forcecast of the *current* binding source is not covered; grid points within 1e-5 of a sphere surface/cut-off excluded as the property states; inexact decimal multiples accept k or k+1 grid points.", "4 C19")
+
 PENDING = {
 }
 
